@@ -342,6 +342,10 @@ class Facts:
     def ty(self, name):
         return self.types.get(name) or {"k": "unknown"}
 
+    @staticmethod
+    def canon_is(path, want):
+        return canon(path) == want
+
     def fns(self):
         return [b for b in self.bodies.values() if b.kind in ("fn", "method", "closure")]
 
